@@ -43,6 +43,14 @@ func (ex *explorer) newInput(name string, k types.BasicKind) value {
 		panic(engineError{"symbolic input during package init"})
 	}
 	w, _, _, _ := kindInfo(k)
+	if v, ok := ex.pins[name]; ok {
+		// re-execution with this input concrete (refineUF)
+		ex.tape = append(ex.tape, TapeEntry{Name: name, W: w, Val: v})
+		if w == 0 {
+			return v != 0
+		}
+		return concreteOfKind(k, v)
+	}
 	var t *smt.Term
 	if w == 0 {
 		t = ex.ctx.Var(name, smt.SBool, 0)
@@ -489,6 +497,14 @@ func init() {
 					out[j] = fr.i.ex.newEnvVar(fmt.Sprintf("md5_%d.%d", n, j), types.Uint8)
 				}
 				fr.i.env.md5uf[sig] = out
+				u := ufApp{real: func(b []byte) []byte { s := md5.Sum(b); return s[:] }}
+				for _, c := range cells {
+					u.in = append(u.in, fr.i.term(c))
+				}
+				for _, o := range out {
+					u.out = append(u.out, fr.i.term(o))
+				}
+				fr.i.ex.ufs = append(fr.i.ex.ufs, u)
 				return append(array(nil), out...)
 			}
 			b[j] = bb
